@@ -65,9 +65,28 @@ def tree_copy(lru_cached_parsing_func: Callable[[str], Tree]):
         cache_size_after_parsing = lru_cached_parsing_func.cache_info().currsize
         if cache_size_after_parsing == cache_size_before_parsing:
             parsing_logger.log(_CACHE_LOG_LEVEL, "The parsed tree for '%s' has been loaded from the cache", args[0])
-        return copy.deepcopy(tree_result)
+        return _deep_copy_of_tree(tree_result)
 
     return decorated
+
+
+def _deep_copy_of_tree(tree: Tree) -> Tree:
+    """
+    Returns a deep copy of the tree (new trees, new children lists, new tokens) like copy.deepcopy does, but without
+    recursion: expressions may be nested deeper than copy.deepcopy can follow without exceeding the recursion limit.
+    """
+    tree_copy_root: Tree = type(tree)(tree.data, [], meta=tree._meta)  # pylint:disable=protected-access
+    trees_to_be_copied = [(tree, tree_copy_root)]
+    while trees_to_be_copied:
+        original, duplicate = trees_to_be_copied.pop()
+        for child in original.children:
+            if isinstance(child, Tree):
+                child_duplicate: Tree = type(child)(child.data, [], meta=child._meta)  # pylint:disable=protected-access
+                duplicate.children.append(child_duplicate)
+                trees_to_be_copied.append((child, child_duplicate))
+            else:
+                duplicate.children.append(copy.deepcopy(child))
+    return tree_copy_root
 
 
 def parse_repeatability(repeatability_string: str) -> Repeatability:
